@@ -1142,6 +1142,42 @@ class Parameter:
         return f"{self.name}:{self.value}" if self.value else self.name
 
 
+def _boolean_expression_str(expression: Expression) -> str:
+    """Serialize a logical, comparison or membership expression.
+
+    Adds parentheses wherever reparsing the result would otherwise group operands
+    differently. All binary operators are right associative and `not` applies to
+    everything that follows it.
+    """
+
+    def _operand(operand: Expression, parent_precedence: int, *, left: bool) -> str:
+        if isinstance(operand, LogicalNotExpression):
+            return f"({_str(operand)})"
+        if operand.__class__ in _BINARY_EXPRESSIONS:
+            precedence = _BINARY_EXPRESSIONS[operand.__class__][1]
+            if precedence < parent_precedence or (
+                left and precedence == parent_precedence
+            ):
+                return f"({_str(operand)})"
+        return _str(operand)
+
+    def _str(expr: Expression) -> str:
+        if isinstance(expr, BooleanExpression):
+            return _str(expr.expression)
+        if isinstance(expr, LogicalNotExpression):
+            if expr.expression.__class__ in _BINARY_EXPRESSIONS:
+                return f"not ({_str(expr.expression)})"
+            return f"not {_str(expr.expression)}"
+        if expr.__class__ in _BINARY_EXPRESSIONS:
+            op, precedence = _BINARY_EXPRESSIONS[expr.__class__]
+            left = _operand(expr.left, precedence, left=True)  # type: ignore
+            right = _operand(expr.right, precedence, left=False)  # type: ignore
+            return f"{left} {op} {right}"
+        return str(expr)
+
+    return _str(expression)
+
+
 class BooleanExpression(Expression):
     __slots__ = ("expression",)
 
@@ -1150,32 +1186,7 @@ class BooleanExpression(Expression):
         self.expression = expression
 
     def __str__(self) -> str:
-        def _str(expression: Expression, parent_precedence: int) -> str:
-            if isinstance(expression, LogicalAndExpression):
-                precedence = PRECEDENCE_LOGICAL_AND
-                op = "and"
-                left = _str(expression.left, precedence)
-                right = _str(expression.right, precedence)
-            elif isinstance(expression, LogicalOrExpression):
-                precedence = PRECEDENCE_LOGICAL_OR
-                op = "or"
-                left = _str(expression.left, precedence)
-                right = _str(expression.right, precedence)
-            elif isinstance(expression, LogicalNotExpression):
-                operand_str = _str(expression.expression, PRECEDENCE_PREFIX)
-                expr = f"not {operand_str}"
-                if parent_precedence > PRECEDENCE_PREFIX:
-                    return f"({expr})"
-                return expr
-            else:
-                return str(expression)
-
-            expr = f"{left} {op} {right}"
-            if precedence < parent_precedence:
-                return f"({expr})"
-            return expr
-
-        return _str(self.expression, 0)
+        return _boolean_expression_str(self.expression)
 
     def evaluate(self, context: RenderContext) -> object:
         return is_truthy(self.expression.evaluate(context))
@@ -1394,7 +1405,7 @@ class LogicalNotExpression(Expression):
         self.expression = expression
 
     def __str__(self) -> str:
-        return f"not {self.expression}"
+        return _boolean_expression_str(self)
 
     def evaluate(self, context: RenderContext) -> object:
         return not is_truthy(self.expression.evaluate(context))
@@ -1420,7 +1431,7 @@ class LogicalAndExpression(Expression):
         self.right = right
 
     def __str__(self) -> str:
-        return f"{self.left} and {self.right}"
+        return _boolean_expression_str(self)
 
     def evaluate(self, context: RenderContext) -> object:
         return is_truthy(self.left.evaluate(context)) and is_truthy(
@@ -1445,7 +1456,7 @@ class LogicalOrExpression(Expression):
         self.right = right
 
     def __str__(self) -> str:
-        return f"{self.left} or {self.right}"
+        return _boolean_expression_str(self)
 
     def evaluate(self, context: RenderContext) -> object:
         return is_truthy(self.left.evaluate(context)) or is_truthy(
@@ -1470,7 +1481,7 @@ class EqExpression(Expression):
         self.right = right
 
     def __str__(self) -> str:
-        return f"{self.left} == {self.right}"
+        return _boolean_expression_str(self)
 
     def evaluate(self, context: RenderContext) -> object:
         return _eq(self.left.evaluate(context), self.right.evaluate(context))
@@ -1494,7 +1505,7 @@ class NeExpression(Expression):
         self.right = right
 
     def __str__(self) -> str:
-        return f"{self.left} != {self.right}"
+        return _boolean_expression_str(self)
 
     def evaluate(self, context: RenderContext) -> object:
         return not _eq(self.left.evaluate(context), self.right.evaluate(context))
@@ -1518,7 +1529,7 @@ class LeExpression(Expression):
         self.right = right
 
     def __str__(self) -> str:
-        return f"{self.left} <= {self.right}"
+        return _boolean_expression_str(self)
 
     def evaluate(self, context: RenderContext) -> object:
         left = self.left.evaluate(context)
@@ -1543,7 +1554,7 @@ class GeExpression(Expression):
         self.right = right
 
     def __str__(self) -> str:
-        return f"{self.left} >= {self.right}"
+        return _boolean_expression_str(self)
 
     def evaluate(self, context: RenderContext) -> object:
         left = self.left.evaluate(context)
@@ -1568,7 +1579,7 @@ class LtExpression(Expression):
         self.right = right
 
     def __str__(self) -> str:
-        return f"{self.left} < {self.right}"
+        return _boolean_expression_str(self)
 
     def evaluate(self, context: RenderContext) -> object:
         return _lt(
@@ -1595,7 +1606,7 @@ class GtExpression(Expression):
         self.right = right
 
     def __str__(self) -> str:
-        return f"{self.left} > {self.right}"
+        return _boolean_expression_str(self)
 
     def evaluate(self, context: RenderContext) -> object:
         return _lt(
@@ -1622,7 +1633,7 @@ class ContainsExpression(Expression):
         self.right = right
 
     def __str__(self) -> str:
-        return f"{self.left} contains {self.right}"
+        return _boolean_expression_str(self)
 
     def evaluate(self, context: RenderContext) -> object:
         return _contains(
@@ -1649,7 +1660,7 @@ class InExpression(Expression):
         self.right = right
 
     def __str__(self) -> str:
-        return f"{self.left} in {self.right}"
+        return _boolean_expression_str(self)
 
     def evaluate(self, context: RenderContext) -> object:
         return _contains(
@@ -1665,6 +1676,20 @@ class InExpression(Expression):
 
     def children(self) -> list[Expression]:
         return [self.left, self.right]
+
+
+_BINARY_EXPRESSIONS: dict[type, tuple[str, int]] = {
+    LogicalOrExpression: ("or", PRECEDENCE_LOGICAL_OR),
+    LogicalAndExpression: ("and", PRECEDENCE_LOGICAL_AND),
+    EqExpression: ("==", PRECEDENCE_RELATIONAL),
+    NeExpression: ("!=", PRECEDENCE_RELATIONAL),
+    LeExpression: ("<=", PRECEDENCE_RELATIONAL),
+    GeExpression: (">=", PRECEDENCE_RELATIONAL),
+    LtExpression: ("<", PRECEDENCE_RELATIONAL),
+    GtExpression: (">", PRECEDENCE_RELATIONAL),
+    ContainsExpression: ("contains", PRECEDENCE_MEMBERSHIP),
+    InExpression: ("in", PRECEDENCE_MEMBERSHIP),
+}
 
 
 class LoopExpression(Expression):
